@@ -20,7 +20,7 @@ import (
 // ---- replayable descriptions of a history (inputs are generator specs, not bytes) ----
 
 type inputSpec struct {
-	Gen  string `json:"gen"` // rand | rep | text | zero | ramp | mixed
+	Gen  string `json:"gen"` // rand | rep | text | zero | run | ramp | mixed
 	Size int    `json:"size"`
 	Seed int64  `json:"seed"`
 }
@@ -87,6 +87,11 @@ func (s inputSpec) bytes() []byte {
 			}
 		}
 	case "zero":
+	case "run": // one byte value, not zero, all along
+		v := byte(1 + r.Intn(255))
+		for i := range b {
+			b[i] = v
+		}
 	case "ramp":
 		for i := range b {
 			b[i] = byte(i)
@@ -121,7 +126,7 @@ func (s inputSpec) bytes() []byte {
 // (whatever the generator), 3/4 to 5/4 of its size.
 func (s inputSpec) nextInput() inputSpec {
 	n := inputSpec{Gen: s.Gen, Size: s.Size + (int(s.Seed%3)-1)*s.Size/4, Seed: s.Seed + 1}
-	if n.Gen == "zero" || n.Gen == "ramp" {
+	if n.Gen == "zero" || n.Gen == "ramp" || n.Gen == "run" {
 		n.Gen = "mixed"
 	}
 	return n
@@ -249,6 +254,9 @@ func codecs() []codecInfo {
 }
 
 func codecByName(name string) *codecInfo {
+	if strings.Contains(name, "#") {
+		return configuredCodec(name)
+	}
 	if base, level, ok := strings.Cut(name, "@"); ok {
 		return levelledCodec(base, level)
 	}
@@ -337,9 +345,10 @@ func levelledCodec(base, level string) *codecInfo {
 	return &codecInfo{name: name, shared: levelled[name], fresh: fresh}
 }
 
-// baseCodec strips the level: "zstd@3" -> "zstd".
+// baseCodec strips the level or the configuration: "zstd@3", "zstd#Level=3" -> "zstd".
 func baseCodec(name string) string {
 	base, _, _ := strings.Cut(name, "@")
+	base, _, _ = strings.Cut(base, "#")
 	return base
 }
 
